@@ -178,6 +178,7 @@ func runC20(p *core.Program, r *core.Report) {
 		c20Mixed(p, r, t)
 		c20Same(p, r, t)
 		c20Sizes(p, r, t)
+		c20Empty(p, r, t)
 		c20Canon(p, r, t)
 		c20Cache(p, r, t)
 	}
@@ -1102,5 +1103,145 @@ func stripWidening(info *types.Info, e ast.Expr) ast.Expr {
 			return e
 		}
 		e = call.Args[0]
+	}
+}
+
+// c20Empty: a container without elements equals a container of its type without elements (itself,
+// another empty one, its own decoded encoding). Equals is walked with both sizes taken as zero, the
+// other operand taken as non-nil and of the receiver's type: every way out that returns a literal
+// must return true (for CompareTo: 0). Conditions that mention neither size are left open.
+func c20Empty(p *core.Program, r *core.Report, t *types.Named) {
+	for _, fi := range p.MethodsOf(t) {
+		name := fi.Obj.Name()
+		if (name != "Equals" && name != "CompareTo") || fi.Decl.Body == nil {
+			continue
+		}
+		if fi.Decl.Type.Params == nil || len(fi.Decl.Type.Params.List) == 0 || len(fi.Decl.Type.Params.List[0].Names) == 0 {
+			continue
+		}
+		if !hasLoopDeep(p, fi, 0) {
+			continue
+		}
+		info := fi.Pkg.TypesInfo
+		other := fi.Decl.Type.Params.List[0].Names[0].Name
+		isSize := func(e ast.Expr) bool {
+			e = stripConvs(info, expandLocals(info, fi.Decl.Body, e))
+			call, ok := ast.Unparen(e).(*ast.CallExpr)
+			if !ok {
+				return false
+			}
+			if id, ok := call.Fun.(*ast.Ident); ok && id.Name == "len" && len(call.Args) == 1 {
+				return true
+			}
+			if sel, ok := call.Fun.(*ast.SelectorExpr); ok && len(call.Args) == 0 && c20SizeName.MatchString(sel.Sel.Name) {
+				return true
+			}
+			return false
+		}
+		in := newInliner(p, fi, nil)
+		ps, over := paths.Enumerate(fi.Decl.Body, paths.Config{Info: info, Expand: in.Expand, Inline: in.Body,
+			Fold: func(c ast.Expr) (bool, bool) {
+				s := stripSpaces(types.ExprString(c))
+				switch s {
+				case other + "==nil":
+					return true, false
+				case other + "!=nil":
+					return true, true
+				}
+				if strings.Contains(s, "GetValueType()") && strings.Contains(s, other+".") {
+					if strings.Contains(s, "!=") {
+						return true, false
+					}
+					if strings.Contains(s, "==") {
+						return true, true
+					}
+				}
+				be, ok := ast.Unparen(c).(*ast.BinaryExpr)
+				if !ok {
+					return false, false
+				}
+				val := func(e ast.Expr) (int64, bool) {
+					if isSize(e) {
+						return 0, true
+					}
+					return constIntOf(info, e)
+				}
+				a, oka := val(be.X)
+				b, okb := val(be.Y)
+				if oka && okb {
+					switch be.Op {
+					case token.EQL:
+						return true, a == b
+					case token.NEQ:
+						return true, a != b
+					case token.LSS:
+						return true, a < b
+					case token.LEQ:
+						return true, a <= b
+					case token.GTR:
+						return true, a > b
+					case token.GEQ:
+						return true, a >= b
+					}
+				}
+				// a counter that starts at zero is not below a size of zero
+				if be.Op == token.LSS && isSize(be.Y) {
+					return true, false
+				}
+				if be.Op == token.GTR && isSize(be.X) {
+					return true, false
+				}
+				return false, false
+			},
+			Classify: func(n ast.Node) []paths.Event {
+				var out []paths.Event
+				if rs, ok := n.(*ast.ReturnStmt); ok && len(rs.Results) == 1 {
+					arg := "?"
+					if tv, ok := info.Types[rs.Results[0]]; ok && tv.Value != nil {
+						arg = tv.Value.ExactString()
+					}
+					out = append(out, paths.Event{Kind: "RETLIT", Arg: arg, Pos: rs.Pos()})
+				}
+				return out
+			}})
+		if over {
+			continue
+		}
+		want := "true"
+		if name == "CompareTo" {
+			want = "0"
+		}
+		bad := ""
+		n := 0
+		for _, pa := range ps {
+			if pa.Has("PANIC") || pa.Has("CUT") {
+				continue
+			}
+			last := ""
+			inLoop := false
+			for _, e := range pa {
+				switch e.Kind {
+				case "LOOP":
+					inLoop = true
+				case "ENDLOOP":
+					inLoop = false
+				case "RETLIT":
+					last = e.Arg
+					if inLoop {
+						last = "?" // a way out from inside a loop body needs an element to be there
+					}
+				}
+			}
+			if last == "" || last == "?" {
+				continue
+			}
+			n++
+			if last != want {
+				bad = "with both containers empty a path returns " + last + " (" + pa.String() + "): an empty " + t.Obj().Name() + " does not equal an empty " + t.Obj().Name() + " (itself, or its own decoded encoding)"
+			}
+		}
+		if n > 0 {
+			r.Check(bad == "", "C20.sizes", "lang/value."+t.Obj().Name()+"."+name+" empty", p.Pos(fi.Decl.Pos()), "two empty containers compare equal", bad)
+		}
 	}
 }
